@@ -118,3 +118,27 @@ def history_free(repo: Repo, fis, rule, eff=None):
         else:
             rule.ok(fi.qualname)
     return eff
+
+
+def callee_receiving(repo: Repo, fi: FuncInfo, param: str) -> FuncInfo | None:
+    """The function or method of the package that `fi` hands its parameter `param` to (the first such call in the body):
+    a private helper found by its role in a public function, whatever it is called."""
+    import ast
+    for node in ast.walk(fi.node):
+        if not isinstance(node, ast.Call):
+            continue
+        passed = [a for a in node.args if isinstance(a, ast.Name) and a.id == param] + \
+                 [k.value for k in node.keywords if isinstance(k.value, ast.Name) and k.value.id == param]
+        if not passed:
+            continue
+        f = node.func
+        if isinstance(f, ast.Attribute) and isinstance(f.value, ast.Name) and f.value.id == 'self' and fi.cls is not None:
+            it = Interp(repo, Model())
+            m = it.find_method(fi.cls, f.attr)
+            if m is not None:
+                return m
+        elif isinstance(f, ast.Name):
+            got = repo._follow(fi.module, f.id)
+            if got is not None and got[0] == 'func':
+                return got[1]
+    return None
